@@ -47,7 +47,9 @@ def parseMeth (m : String) (arg : Int) : Option (Meth UInt8) :=
 
 def cell (line : String) : String :=
   match (line.splitOn " ").filter (· ≠ "") with
-  | ["cell", mode, cb, inb, outp, reuse, m, arg, rep] =>
+  | ["cell", mode, cb, inb, outp, reuse, _tmo, m, arg, rep] =>
+    -- `_tmo`: a read timeout is configured and an earlier read timed out. After the close every wait loop
+    -- checks `closing` before it would wait, so the outcome is that of the untimed call (C07 covers the timer).
     let mode? : Option Mode := match mode with
       | "user" => some .user | "peer" => some .peer | "peeruser" => some .peerThenUser | "detach" => some .detach | _ => none
     match mode?, live (cb == "1") (inb == "1") (outp == "1"), parseMeth m (toInt! arg) with
